@@ -218,3 +218,30 @@ Example envsub_inert_satisfiable :
   exists sc v, v <> None /\ wf_scall (with_envsub sc v) = true /\
     (match v with Some w => name_eqb w (s_name sc) | None => false end && env_is_source (s_parent sc))%bool = false.
 Proof. exists ex_scall, (Some ([122%N], false)). vm_compute. repeat split; congruence. Qed.
+
+(* ---- residual of class 6 once _load_env_vars asks the named subcommand for its environment only (fx_envsub, /repo 3663e43):
+   the result is still copied by top-level entry.  CFG='{"f": {"g": {"d": 8}}}', F_SUBCOMMAND=f, F__G__X=3, parse_args(['f']):
+   the group f.g of the environment namespace is replaced by {x: 3}, f.g.d falls back to its default 2; the fold gives 8.
+   With the leaf-wise copy (fx_leaf) the pipeline gives the fold. *)
+Definition n_g : name := ([103%N], false).
+Definition n_d : name := ([100%N], false).
+Definition n_x : name := ([120%N], false).
+Definition fx_repo : fixes := {| fx_append := false; fx_section := true; fx_envsub := true; fx_leaf := false |}.
+Definition fx_repo_leaf : fixes := {| fx_append := false; fx_section := true; fx_envsub := true; fx_leaf := true |}.
+Definition group_scall : scall :=
+  {| s_parent := mk_parent [{| d_key := k_k; d_kind := KScalar; d_default := VTok 1 |}] [] (Some [([n_f; n_g; n_d], Set_ (VTok 8))]) [];
+     s_name := n_f;
+     s_sub := [{| d_key := [n_g; n_x]; d_kind := KScalar; d_default := VTok 1 |};
+               {| d_key := [n_g; n_d]; d_kind := KScalar; d_default := VTok 2 |}];
+     s_subenv := [([n_g; n_x], VTok 3)]; s_envsub := Some n_f; s_subargv := [] |}.
+
+Definition sub_outcome_fx (fx : fixes) (sc : scall) : option (list val) :=
+  match pipeline_sub_fx fx sc with Ok t => Some (observe_values (all_decls sc) t) | Unrecognized => None end.
+
+Lemma envsub_group_residual :
+  wf_scall group_scall = true /\ scall_class_fx false true true false group_scall = 6%N /\
+  scall_class_fx false true true true group_scall = 2%N /\
+  final_values_sub group_scall = [VTok 1; VTok 3; VTok 8] /\
+  sub_outcome_fx fx_repo group_scall = Some [VTok 1; VTok 3; VTok 2] /\
+  sub_outcome_fx fx_repo_leaf group_scall = Some (final_values_sub group_scall).
+Proof. vm_compute. repeat split; reflexivity. Qed.
